@@ -11,7 +11,7 @@ boxes (see expr.py) and offers them to rule objects.
 import sys
 from collections import deque
 from body import BodyInfo
-from expr import (is_pop_call, show, box_part, table_of, mentions_site, mentions, is_const, const, MAX, depth, mk_deref,
+from expr import (mk_discr, is_pop_call, show, box_part, table_of, mentions_site, mentions, is_const, const, MAX, depth, mk_deref,
                   mk_field, mk_ref)
 
 ALL = frozenset("ZOMU")       # Zero, One, Many(2..MAX-1), Uninit(MAX)
@@ -261,7 +261,8 @@ class Engine:
                 e = self.bi.rvalue(s["rv"], val)
                 if s["rv"]["k"] == "discr" and not s["rv"]["pl"]["p"] and e[0] == "discr":
                     lt = self.fn.locals[s["rv"]["pl"]["l"]]["ty"]
-                    if lt.get("adt") in ("core::option::Option", "core::result::Result") and lt.get("peel") == 0:
+                    if lt.get("adt") in ("core::option::Option", "core::result::Result", "core::ops::ControlFlow", "hashbrown::hash_map::Entry",
+                                         "hashbrown::hash_map::EntryRef", "hashbrown::hash_set::Entry", "alloc::collections::btree_map::Entry") and lt.get("peel") == 0:
                         self.two_variant.add(e[1])
                 e = widen_steps(e)
                 if depth(e) > 150:
@@ -333,6 +334,16 @@ class Engine:
 
     def overflow_possible(self, c, st):
         """Can the overflow flag `c` of counter arithmetic be set, given the strong-state?"""
+        # `x - y` right after a successful `x > y` / `x >= y` test (guarded in-place subtraction of a table count)
+        if c[0] == "field" and c[2] in ("1", 1) and c[1][0] == "bin" and c[1][1] == "SubWithOverflow":
+            x, y = c[1][2], c[1][3]
+            for f in st.flags:
+                if f[0] == "cmp" and len(f) >= 5:
+                    op, a, b_, truth = f[1], f[2], f[3], f[4]
+                    if a == x and b_ == y and ((op in ("Gt", "Ge") and truth) or (op in ("Lt", "Le") and not truth)):
+                        return False
+                    if a == y and b_ == x and ((op in ("Lt", "Le") and truth) or (op in ("Gt", "Ge") and not truth)):
+                        return False
         if c[0] == "field" and c[2] in ("1", 1) and c[1][0] == "bin" and c[1][1] in ("SubWithOverflow", "AddWithOverflow") and is_const(c[1][3], 1):
             g = counter_read(c[1][2])
             if g is not None and g[2] == "strong" and (g[0], g[1], g[2]) in st.fresh:
@@ -510,7 +521,10 @@ class Engine:
                 v = "1" if listed == ["0"] else ("0" if listed == ["1"] else None)
                 if v is None:
                     return None if set(listed) >= {"0", "1"} else st
-            return self.refine(st, ("discr", x), "1" if v == "0" else "0", ["0", "1"], b)
+            dx = mk_discr(x)
+            if is_const(dx):
+                return st if dx[1] == ("1" if v == "0" else "0") else None
+            return self.refine(st, dx, "1" if v == "0" else "0", ["0", "1"], b)
         if d[0] == "discr":
             inner = d[1]
             known = st.variant(inner)
